@@ -497,3 +497,8 @@ M("C13", "coslat weights keep the coordinate's name", XU, '        weights.name 
 M("C03", "coslat weights keep the coordinate's name", XU, '        weights.name = "coslat_weights"\n        return weights\n', "        return weights\n", "MIRROR.state.named")
 B("C13", "coslat weights named through rename", XU, '        weights.name = "coslat_weights"\n        return weights\n', '        return weights.rename("coslat_weights")\n')
 M("C01", "components() scales the stored array in place", BMS, "            components = components * self.data[\"norms\"]\n", "            components *= self.data[\"norms\"]\n", "WIRE.query_mutates")
+ROTX = "xeofs/cross/cpcca_rotator.py"
+M("C04", "rotator fit skips the pca inverse for field 2", ROTX, "        Qy = self.pca2.inverse_transform_components(Qy)\n", "", "SPACE.stored.round")
+M("C04", "rotator fit does not scale the scores of field 2", ROTX, "        scores1 = scores1 / scaling\n        scores2 = scores2 / scaling\n", "        scores1 = scores1 / scaling\n", "AGREE.factor.extra")
+M("C04", "rotator transform re-sorts field 1 only", ROTX, "            if self.sorted:\n                projections2 = projections2.isel(\n                    mode=self.data[\"idx_modes_sorted\"].values\n                ).assign_coords(mode=projections2.mode)\n", "", "AGREE.resort.each")
+M("C11", "rotator transform re-sorts field 1 only", ROTX, "            if self.sorted:\n                projections2 = projections2.isel(\n                    mode=self.data[\"idx_modes_sorted\"].values\n                ).assign_coords(mode=projections2.mode)\n", "", "SORT.state.transform.each")
